@@ -68,6 +68,8 @@ func (t *target) open(p *plan) (writer, error) {
 		// The path taken by `super query -o file`: emitter.NewFileFromURI puts a
 		// bufwriter between the format writer and the storage engine's writer.
 		return emitter.NewFileFromURI(ctx, &putEngine{p: p}, storage.MustParseURI("mem://out/file"), false, t.opts)
+	case "vector":
+		return data.NewVectorWriter(ctx, &putEngine{p: p}, storage.MustParseURI("mem://lake/pool"), fixedID)
 	case "dataobj":
 		o := data.NewObject()
 		o.ID = fixedID
@@ -98,14 +100,39 @@ func noise(n int) string {
 	return string(b)
 }
 
+// richVals returns two values of one record type whose columns make the
+// writers take their multi-write paths: columns that mix nulls with several
+// distinct non-null values (VNG: values vector + null-runs vector, dictionary
+// encoding), a constant column (VNG const), a column with more distinct values
+// than a dictionary holds (VNG plain), 8-bit and bool columns (never
+// dictionary encoded), unions, maps, sets, errors, type values and nested
+// records/arrays with nulls at every level.
+func richVals() (string, string) {
+	var many, many2 []string
+	for i := 0; i < 300; i++ {
+		many = append(many, fmt.Sprint(i*7))
+		many2 = append(many2, fmt.Sprint(i*11+1))
+	}
+	tmpl := `{x:%s,a:[%s],c:[7,7,7],p:[%s],b:[true,null,false,true],y:[1(uint8),null,3(uint8)],` +
+		`u:[1,"x",null,2.5,"y",2],m:|{"k":1,"j":null,"l":%s}|,` +
+		`r:{f:null(int64),g:["a",null,"b",%s],h:{i:null(string),j:[[1,null],null,[2,3]]}},` +
+		`s:|[1,2,3]|,e:error("boom"),t:<{a:int64}>,z:[null(string),"p","q","p"],f:[1.5,null,-0.,+Inf]}`
+	n := fmt.Sprintf(tmpl, "4", "1,null,2,2,null,3", strings.Join(many, ","), "2", `"a"`)
+	o := fmt.Sprintf(tmpl, "null(int64)", "null,5,6,null,null,7", strings.Join(many2, ","), "null", `null`)
+	return n, o
+}
+
 // genericVals maps the value classes of SinkWriter.tla (Classes) to ZSON.
 func genericVals() map[string]string {
+	n, o := richVals()
 	return map[string]string{
 		"s": `{x:1,s:"foo"}`,
 		"t": `{y:1.5,z:[1,2]}`,
 		"u": `{x:7}`,
 		"L": `{x:2,s:"` + noise(largeLen) + `"}`,
 		"R": `{x:3,s:"` + strings.Repeat("abcdefghij", largeLen/10) + `"}`,
+		"n": n,
+		"o": o,
 	}
 }
 
@@ -144,16 +171,22 @@ func targets() []*target {
 	add("json-pretty", "json", true, anyio.WriterOpts{JSON: jsonio.WriterOpts{Pretty: 2}}, g)
 	csv := genericVals()
 	csv["t"] = `{x:"q",s:2}` // csv needs equal field names
+	csv["n"] = `{x:null(int64),s:"a,b \"q\"\nsecond line"}`
+	csv["o"] = `{x:[1,null,2],s:null(string)}`
 	add("csv", "csv", true, anyio.WriterOpts{}, csv)
 	add("tsv", "tsv", true, anyio.WriterOpts{}, csv)
 	zeek := genericVals()
 	zeek["t"] = `{y:1.5,z:"k"}`
+	zeek["n"] = `{x:null(int64),s:"foo",v:[1,null,3],w:|[1,2]|,r:{a:null(string),b:1.5}}`
+	zeek["o"] = `{x:9,s:null(string),v:null([int64]),w:|[3]|,r:{a:"q",b:null(float64)}}`
 	add("zeek", "zeek", false, anyio.WriterOpts{}, zeek)
 	add("table", "table", false, anyio.WriterOpts{}, zeek)
 	add("text", "text", false, anyio.WriterOpts{}, g)
 	add("vng", "vng", false, anyio.WriterOpts{}, g)
 	add("lake", "lake", false, anyio.WriterOpts{}, lakeVals())
 	out = append(out, &target{Name: "dataobj", Format: "dataobj", Layer: "dataobj", Latch: true, NSinks: 2, vals: g})
+	// The lake's vector (VNG) object writer: vngio over a bufwriter over storage.Engine.Put.
+	out = append(out, &target{Name: "vector", Format: "vng", Layer: "vector", Latch: true, NSinks: 1, vals: g})
 	return out
 }
 
